@@ -312,6 +312,7 @@ func allPropsUnsorted() []*propInfo {
 				"only (time.Time).IsZero tests establish that a time is non-zero (CheckValid does not)",
 			},
 			Rules: []ruleFn{
+				{ID: "C16.9", Doc: "[dom] a pointer-like result that comes with an error is dereferenced only where the error was found nil (or the result tested)", Run: ruleC16_9},
 				{ID: "C09.2", Doc: "(shared: a request answered with an error changes nothing: the runner commits only on success) [dom] (shared) the transaction helper commits iff the operation succeeded and reports commit errors", Run: ruleC09_2},
 				{ID: "C16.7", Doc: "[dom] constant indexes into request-derived slices in package services are under a length test", Run: ruleC16_7},
 				{ID: "C16.8", Doc: "[dom] the pull's deferred clean-up dereferences params.ID only under a nil test", Run: ruleC16_8},
